@@ -301,6 +301,21 @@ func runC14(c *eng.Ctx) {
 			if nret == 0 {
 				c.Unresolved("success return of checkEnvelope")
 			}
+			// the flag test really tests the flag bit: whatever other (reserved) bits are set, bit 0 of the flags byte decides
+			if hbf := c.FnQuiet("server/protocol.hasBit"); hbf != nil {
+				okBit := false
+				for _, r := range eng.Returns(hbf) {
+					v := eng.RetVals(r)[0]
+					mask := eng.BinComm(token.AND, eng.Param("n"), eng.Bin(token.SHL, eng.IntConst(1), eng.Param("pos")))
+					if eng.Bin(token.GTR, mask, eng.IntConst(0))(v) || eng.Bin(token.NEQ, mask, eng.IntConst(0))(v) {
+						okBit = true
+					}
+				}
+				okUse := eng.IntConst(0)(hb[0].Common().Args[1])
+				c.Check(okBit && okUse, "the CRC flag is tested as a bit of the flags byte", p.Pos(hbf.Pos()), "hasBit(n, pos) = n & (1 << pos) != 0, called with bit 0", "hasBit is not a mask test of bit pos (or checkEnvelope does not test bit 0): a flags byte with the CRC bit and any other bit set is treated as having no checksum, so corrupted payloads are accepted unverified")
+			} else {
+				c.Unresolved("server/protocol.hasBit")
+			}
 			// the checksum is computed over the payload with the Castagnoli table and compared with the header field
 			call := cs[0].(*ssa.Call)
 			okArgs := eng.Global("server/protocol.crc32cTable")(call.Call.Args[1])
